@@ -275,6 +275,108 @@ def main(ctx):
             if not ok:
                 ctx.fail('oracle', 'TruncationError arithmetic (sum of eps / from_S / from_norm) wrong: %s' % x,
                          {'stream': 'err', 'case': c})
+    # ---- TruncationError arithmetic, exact: implementation floats == Model/TruncBook.v te_* over Q
+    from fractions import Fraction
+    xcases = []
+    for _ in range(ctx.pick(200, 2000)):
+        no = rng.choice([None, (1, 1), (2, 1), (1, 2), (4, 1)])
+        xcases.append({'eps_list': [(rng.randint(0, 1 << 20), 1 << 40) for _ in range(rng.randint(0, 6))],
+                       'S_disc': [(rng.randint(0, 1000), 4096) for _ in range(rng.randint(0, 5))],
+                       'norm_old': no, 'norm_new': (rng.randint(1, 4096), 4096)})
+    (r, err), = common.run_impl_parallel('c15_impl.py', [{'kind': 'err_exact', 'cases': xcases}])
+    if err:
+        ctx.fail('correspondence', err[-300:], None)
+    else:
+        lits, keep = [], []
+        for c, x in zip(xcases, r):
+            if 'runner_error' in x:
+                ctx.fail('oracle', 'TruncationError arithmetic raised: ' + x['runner_error'][-200:], {'stream': 'err-exact', 'case': c})
+                continue
+            ctx.count('err-exact', c, nontrivial=len(c['eps_list']) > 1)
+            lits.append(coq_lit(([tuple(e) for e in c['eps_list']], [tuple(e) for e in c['S_disc']],
+                                 opt(tuple(c['norm_old']) if c['norm_old'] else None), tuple(c['norm_new']),
+                                 (tuple(x['eps_sum']), tuple(x['from_S_eps']), tuple(x['from_norm_eps'])))))
+            keep.append((c, x))
+        bad, cerr = common.coq_failing_indices('cases_c15_terr', ['Base.Prelude', 'Model.TruncBook'], 'check_terr', lits)
+        if cerr:
+            ctx.fail('correspondence', 'model evaluation failed: ' + cerr[-600:], None)
+        for b in bad[:5]:
+            ctx.fail('correspondence', 'Model/TruncBook.v te_sum/te_from_S/te_from_norm and TruncationError disagree',
+                     {'stream': 'err-exact', 'case': keep[b][0], 'impl': keep[b][1]})
+    # ---- renormalisation bookkeeping of svd_theta / eigh_rho <-> Model/TruncBook.v (svd_book_sq, eigh_book_z)
+    bcases = []
+    for i in range(ctx.pick(300, 3000)):
+        eigh = rng.random() < 0.5
+        n = rng.choice([1, 2, 3, 4, 5, 6, 8, 10])
+        k = 20 if eigh else 12
+        hi = (1 << k) - 1
+        if rng.random() < 0.3:
+            pool = [rng.randint(1, hi) for _ in range(3)]
+            xs = [rng.choice(pool) for _ in range(n)]
+        else:
+            xs = [rng.randint(1, hi) for _ in range(n)]
+        opts = {'chi_max': rng.choice([1, 2, 3, 5, 100, None]), 'svd_min': rng.choice([None, 1e-14, 1e-3, 0.2]),
+                'trunc_cut': rng.choice([None, 1e-14, 1e-2, 0.3, 0.6]), 'chi_min': rng.choice(['absent', None, 2]),
+                'degeneracy_tol': rng.choice(['absent', None, 1e-6])}
+        bcases.append({'seed': ctx.seed * 100000 + i, 'xs': xs, 'k': k, 'eigh': eigh, 'rotate': rng.random() < 0.5,
+                       'opts': opts})
+    chunks = [bcases[i::common.NPROC] for i in range(common.NPROC)]
+    res = common.run_impl_parallel('c15_impl.py', [{'kind': 'book', 'cases': ch} for ch in chunks if ch])
+    lits = {'svd': [], 'eigh': []}
+    keep = {'svd': [], 'eigh': []}
+    for ci, (r, err) in enumerate(res):
+        if err:
+            ctx.fail('correspondence', 'book runner failed: ' + err[-400:], None)
+            continue
+        for j, x in enumerate(r):
+            c = chunks[ci][j]
+            if 'runner_error' in x:
+                ctx.fail('correspondence', 'book runner failed: ' + x['runner_error'][-400:], {'stream': 'book', 'case': c})
+                continue
+            if 'error' in x:
+                ctx.fail('oracle', 'svd_theta/eigh_rho raised: %s' % x['error'], {'stream': 'book', 'case': c},
+                         match_key='C15:decomp-raises')
+                continue
+            if not x['exact_in'] or sorted(x['order']) != sorted(c['xs']):
+                ctx.count('book', c, nontrivial=False)     # LAPACK did not return the planted spectrum to 1e-12
+                continue
+            mask, order = x['mask'], x['order']
+            kept = [v for v, m in zip(order, mask) if m]
+            disc = [v for v, m in zip(order, mask) if not m]
+            fr = lambda p: Fraction(p[0], p[1])
+            probs = []
+            if c['eigh']:
+                W = [fr(p) for p in x['W']]
+                tot = sum(order)
+                if len(W) != len(kept) or abs(float(sum(W)) / tot - 1) > 1e-9:
+                    probs.append('eigh_rho: sum(W_new) = %r, trace %d' % (float(sum(W)), tot))
+                if abs(float(fr(x['eps'])) - sum(disc) / tot) > 1e-9:
+                    probs.append('eigh_rho: eps %r, discarded/trace %r' % (float(fr(x['eps'])), sum(disc) / tot))
+                lits['eigh'].append(coq_lit((order, mask, ([tuple(p) for p in x['W']], tuple(x['eps'])))))
+                keep['eigh'].append((c, x))
+            else:
+                S = [fr(p) for p in x['S']]
+                ren = fr(x['renorm'])
+                tot = sum(v * v for v in order)
+                if len(S) != len(kept) or any(abs(float(sv * ren) - v) > 1e-9 * max(1, v) for sv, v in zip(S, kept)):
+                    probs.append('svd_theta: S_new*renormalization != kept singular values')
+                if abs(float(sum(sv * sv for sv in S)) - 1) > 1e-9:
+                    probs.append('svd_theta: S_new not normalised')
+                if abs(float(fr(x['eps'])) - sum(v * v for v in disc) / tot) > 1e-9:
+                    probs.append('svd_theta: eps != discarded weight / total weight')
+                lits['svd'].append(coq_lit((order, mask, ([tuple(p) for p in x['S']], tuple(x['renorm']), tuple(x['eps'])))))
+                keep['svd'].append((c, x))
+            ctx.count('book', c, nontrivial=not all(mask), sample={'xs': c['xs'], 'opts': c['opts'], 'eigh': c['eigh'], 'kept': len(kept)})
+            if probs:
+                ctx.fail('oracle', '; '.join(probs), {'stream': 'book', 'case': c, 'impl': x}, match_key='C15:book')
+    for kind, fn in (('svd', 'check_svd_book'), ('eigh', 'check_eigh_book')):
+        bad, cerr = common.coq_failing_indices('cases_c15_' + kind, ['Base.Prelude', 'Model.TruncBook'], fn, lits[kind])
+        if cerr:
+            ctx.fail('correspondence', 'model evaluation failed: ' + cerr[-600:], None)
+        for b in bad[:5]:
+            ctx.fail('correspondence', 'Model/TruncBook.v %s and the implementation disagree' % fn,
+                     {'stream': 'book', 'case': keep[kind][b][0], 'impl': keep[kind][b][1]})
+    ctx.cov['traces_validated_against_impl'] += len(lits['svd']) + len(lits['eigh'])
     # ---- truncated decompositions: reconstruction error == reported error
     dcases = []
     for i in range(ctx.pick(120, 1500)):
@@ -340,7 +442,7 @@ def main(ctx):
                 ctx.fail('oracle', '; '.join(probs), {'stream': 'decomp', 'case': c, 'impl': x}, match_key='C15:decomp')
     ctx.assumptions += [
         'C15 model: spectra are integers (numerators of dyadic rationals), zeros handled as in the header of coq/Model/Truncate.v',
-        'C15 not modelled: float rounding inside np.log / np.linalg.norm (generators keep all compared quantities >= 2^-20 apart or exactly equal); LAPACK in svd_theta/eigh_rho (oracle only); decompose_theta_qr_based is not yet covered',
+        'C15 not modelled: float rounding inside np.log / np.linalg.norm (generators keep all compared quantities >= 2^-20 apart or exactly equal); LAPACK in svd_theta/eigh_rho (oracle only; the bookkeeping around it is compared with Model/TruncBook.v to 1e-9); decompose_theta_qr_based is not yet covered',
     ]
     return ctx.finish(RULE, 'theorems of coq/Props/C15.v for all spectra/options on the model; model tied to truncation.truncate by '
                       'vm_compute evaluation of every generated case; _combine_constraints regenerated from source')
@@ -348,4 +450,5 @@ def main(ctx):
 
 RULE = ('truncate: random integer spectra (length 1-40; exact ties, zeros, sorted/unsorted, unnormalised) x full option lattice '
         '(absent / None / values incl. unsatisfiable); a case is non-trivial when the spectrum has >= 2 distinct values; '
-        'distinct = distinct (spectrum, options).  decomp: random block-sparse matrices x options, non-trivial when something was truncated.')
+        'distinct = distinct (spectrum, options).  book: svd_theta/eigh_rho on (rotated) diagonal matrices with planted integer spectra, '
+        'non-trivial when something was truncated.  decomp: random block-sparse matrices x options, non-trivial when something was truncated.')
